@@ -8,3 +8,6 @@ for f in /verif/contracts/*.go; do
   if [ "$name" = root ]; then dir="$REPO"; else dir="$REPO/$(echo "$name" | tr _ /)"; fi
   cp "$f" "$dir/contracts_verif.go"
 done
+# a "*/" inside a contract line would end the comment block early; the guarded files must still build
+if grep -n '\*/' /verif/contracts/*.go | grep -v ':@\*/$' | grep -q .; then echo "sync_contracts: '*/' inside a contract line (write \\x2a/ in string literals):"; grep -n '\*/' /verif/contracts/*.go | grep -v ':@\*/$' | cut -c1-120; fi
+(cd /repo && GOFLAGS=-mod=mod GOPROXY=off GOSUMDB=off GOTOOLCHAIN=local go build -tags verif ./... 2>&1 | head -5)
